@@ -308,8 +308,11 @@ class KernelCheck(object):
             try:
                 if dif[r['name']]:
                     # all back ends in parallel, each until it answers or the cap: answers must agree
-                    status, solver, txt, answers = solve._run_external(o['file'], min(tmo[r['name']], 400), wait_all=True)
+                    status, solver, txt, answers = solve._run_external(o['file'], min(tmo[r['name']], 120), wait_all=True)
                     o['detail'] = str(answers)
+                    if status == 'unknown':
+                        # nobody answered inside the diff window: ordinary portfolio with the full cap
+                        status, solver, txt = solve._run_external(o['file'], tmo[r['name']])
                 else:
                     status, solver, txt = solve._run_external(o['file'], tmo[r['name']])
             finally:
